@@ -39,9 +39,17 @@ def one(entry):
         else:
             fn = os.path.join(d, entry['file'])
             s = open(fn).read()
-            if s.count(entry['find']) != 1:
-                return dict(id=entry['id'], ok=None, got='find-text occurs %d times in the current tree' % s.count(entry['find']))
-            open(fn, 'w').write(s.replace(entry['find'], entry['replace']))
+            if 'occurrence' in entry:
+                parts = s.split(entry['find'])
+                k = entry['occurrence']
+                if len(parts) - 1 <= k:
+                    return dict(id=entry['id'], ok=None, got='find-text occurs %d times in the current tree' % (len(parts) - 1))
+                s2 = entry['find'].join(parts[:k + 1]) + entry['replace'] + entry['find'].join(parts[k + 1:])
+                open(fn, 'w').write(s2)
+            else:
+                if s.count(entry['find']) != 1:
+                    return dict(id=entry['id'], ok=None, got='find-text occurs %d times in the current tree' % s.count(entry['find']))
+                open(fn, 'w').write(s.replace(entry['find'], entry['replace']))
         rc, viol, out = run_check(d, entry['property'], entry.get('only'))
         got = 'refuted' if rc == 1 and viol else ('held' if rc == 0 else 'exit %d' % rc)
         first = viol[0].split('obligation=')[-1][:160] if viol else ''
